@@ -27,18 +27,20 @@ var (
 	kindSets = [][]string{nil, {"A"}, {"B"}, {"B", "A"}}
 	edgeKind = []string{"R", "S"}
 	values   = []any{int64(1), int64(-1), int64(1<<53 + 1), 1.5, "", "é😀", true, nil,
-		[]any{int64(1), []any{int64(2)}}, map[string]any{"k": map[string]any{"j": []any{}}}}
+		[]any{int64(1), []any{int64(2)}}, map[string]any{"k": map[string]any{"j": []any{}}},
+		uint64(1<<63 + 5), []any{map[string]any{"u": uint64(1<<64 - 1)}}}
 	codecs = []string{"none", "gzip", "zstd"}
 )
 
 func propsFor(salt, t int) map[string]any {
-	switch p := (salt + t) % 12; {
-	case p < 10:
+	nv := len(values)
+	switch p := (salt + t) % (nv + 2); {
+	case p < nv:
 		return map[string]any{"p": values[p]}
-	case p == 10:
+	case p == nv:
 		return nil
 	default:
-		return map[string]any{"p": values[salt%10], "é😀": values[(salt+3)%10], "": values[(salt+6)%10]}
+		return map[string]any{"p": values[salt%nv], "é😀": values[(salt+3)%nv], "": values[(salt+6)%nv]}
 	}
 }
 
@@ -637,7 +639,7 @@ func main() {
 		os.RemoveAll(root)
 		run.Finish()
 	}
-	run.Set("rule", "all databases of 1 graph with <=2 (quick) / <=3 (thorough) nodes (IDs 1,5,2^33; kinds subsets of {A,B}) and <=2 relationships (any endpoints, kinds R/S, parallel and identical ones) with property maps rotated over the 10-value domain, plus a per-position sweep of the domain and 2-graph databases (escaped graph name, overlapping IDs); each x codec{none,gzip,zstd} x shard{1,2,3} x dump batch{1,2,3} x load batch{1,2,3} (3-node graphs and 2-graph databases: dump batch = load batch); Verify iff-sweep over every single edit of the loaded database once per database")
+	run.Set("rule", "all databases of 1 graph with <=2 (quick) / <=3 (thorough) nodes (IDs 1,5,2^33; kinds subsets of {A,B}) and <=2 relationships (any endpoints, kinds R/S, parallel and identical ones) with property maps rotated over the 12-value domain (incl. 2^53+1, uint64 values above MaxInt64, nested and unicode values), plus a per-position sweep of the domain and 2-graph databases (escaped graph name, overlapping IDs); each x codec{none,gzip,zstd} x shard{1,2,3} x dump batch{1,2,3} x load batch{1,2,3} (3-node graphs and 2-graph databases: dump batch = load batch); Verify iff-sweep over every single edit of the loaded database once per database")
 	run.Assume("fakedb implements graph.Database as documented: ordered keyset reads, CreateNodes returns fresh IDs in input order, CreateRelationshipByIDs always creates (no upsert on start/end/kind)")
 	run.Assume("'Verify succeeds exactly when the graphs match' is decided relative to the documented metrics (kind, degree, endpoint-kind histograms): property-value changes are invisible to Verify by design; the sweep measures this (verify_mutations_metrics_equal)")
 	run.Assume("JSON equality of numbers is exact rational equality of the JSON texts")
